@@ -115,19 +115,65 @@ def r12_1(ctx):
         r.saw(cb["path"])
         g = C.cfg_of(ctx, cb)
         _check_blocks(ctx, cb, set(g.reach), ob, pending_closures, whole=True)
-    # optimize passed on as a value to a local function: an influence channel this rule does not follow
+    # optimize passed on as a value to a local function: the callee is analysed with that parameter in the role of the option
+    # (a plain copy of the field only; anything computed from it and handed on stays a violation)
+    work = []
     for mb in F.mir:
         if mb["crate"] != VISITOR_CRATE or not is_visitor_body(mb):
             continue
         fl = flow_of(ctx, mb)
         for i, t in calls(mb):
             if (mb["crate"], callee_name(t)) in F.mir_by_path:
-                for a in t["args"]:
+                for j, a in enumerate(t["args"]):
                     if OPT in {f.strip(".") for f in self_field_of(fl.op_deps(a))} and not (place_of(a) or {}).get("ty", "").startswith(("&mut VueJsx", "&VueJsx")):
                         pty = (place_of(a) or {}).get("ty", "")
                         if pty == "bool":
-                            ob("%s passes optimize to %s" % (root_path(mb), callee_name(t).split("::")[-1]), False, C.mloc(mb, t),
-                               "the option value is handed to another function; its influence there is not followed")
+                            srcs = fl.op_sources(a)
+                            pure = bool(srcs) and all(x[0] == "param" and x[1] == 1 and {f.strip(".") for f in self_field_of({x})} == {OPT} for x in srcs)
+                            if pure:
+                                work.append((mb["crate"], callee_name(t), j + 1, root_path(mb), C.mloc(mb, t)))
+                            else:
+                                ob("%s passes optimize to %s" % (root_path(mb), callee_name(t).split("::")[-1]), False, C.mloc(mb, t),
+                                   "a value computed from the option is handed to another function; its influence there is not followed")
+    followed = set()
+    while work:
+        crate, cpath, pl, frm, loc = work.pop()
+        if (crate, cpath, pl) in followed:
+            continue
+        followed.add((crate, cpath, pl))
+        fb = F.mir_by_path.get((crate, cpath))
+        if fb is None or pl > fb["arg_count"]:
+            ob("%s passes optimize to %s" % (frm, cpath.split("::")[-1]), False, loc, "callee body not available")
+            continue
+        r.saw(fb["path"])
+        g = C.cfg_of(ctx, fb)
+        ffl = flow_of(ctx, fb)
+        tests = []
+        for b in g.reach:
+            t = fb["blocks"][b].get("term") or {}
+            if t.get("k") == "switch" and any(x[0] == "param" and x[1] == pl for x in ffl.op_deps(t["discr"])):
+                tests.append(b)
+        infl = {b for b in g.reach for (a_, s_) in g.transitive_control_branches(b) if a_ in tests}
+        n_reads += len(tests)
+        _check_blocks(ctx, fb, infl, ob, pending_closures)
+        # any other use of the parameter: handed on again (followed), or flowing into a value (not hint-only unless typed as a hint)
+        for i, t in calls(fb):
+            for j, a in enumerate(t["args"]):
+                if any(x[0] == "param" and x[1] == pl for x in ffl.op_deps(a)):
+                    if (fb["crate"], callee_name(t)) in F.mir_by_path and all(x[0] == "param" and x[1] == pl and not x[2] for x in ffl.op_sources(a)):
+                        work.append((fb["crate"], callee_name(t), j + 1, cpath, C.mloc(fb, t)))
+                    elif not PURE_CALLEES.search(callee_name(t)):
+                        ob("%s: optimize (parameter %d) flows into %s" % (cpath, pl, callee_name(t).split("::")[-1]), False, C.mloc(fb, t),
+                           "the option value is used as data by a call that is not on the pure list")
+        while pending_closures:
+            cp, cr = pending_closures.pop()
+            if (cr, cp) in done:
+                continue
+            done.add((cr, cp))
+            cb = F.mir_by_path.get((cr, cp))
+            if cb is not None:
+                r.saw(cb["path"])
+                _check_blocks(ctx, cb, set(C.cfg_of(ctx, cb).reach), ob, pending_closures, whole=True)
     r.ob("reads of options.optimize found", n_reads > 0, "-", "%d branch(es) test options.optimize" % n_reads)
     return r
 
